@@ -187,7 +187,7 @@ def load_contracts(cdir, only=None):
                         elif d.name == 'loop':
                             unit.loops[int(d.arg)] = d.body()
                         elif d.name == 'at':
-                            m = re.match(r'(body|loop \d+|block \d+) (entry|end|before \d+|after \d+|before last)$', d.arg)
+                            m = re.match(r'(body|loop \d+|block \d+) (entry|end|before \d+|after \d+|before last|(?:before|after) ~.+)$', d.arg)
                             if not m:
                                 raise SystemExit('%s: bad anchor %r' % (d.lineno, d.arg))
                             unit.ats.append((m.group(1), m.group(2), d.body(), d.lineno))
@@ -325,7 +325,20 @@ def annotate_file(src, fc, relfile, uid_start=0):
                     raise LostAnchor('%s: empty block in %s' % (lineno, u.path))
                 madd(toks[st[-1][0]].a, text + '\n')
                 continue
-            kind, n = pos.split()
+            kind, n = pos.split(None, 1)
+            if n.startswith('~'):
+                # content anchor: the first statement of the block whose text matches the regex (robust against inserted,
+                # removed or reordered statements elsewhere in the block)
+                spec = n[1:].strip()
+                nth = 1
+                mm = re.match(r'#(\d+)\s+(.*)$', spec)  # `~#2 regex` = second matching statement
+                if mm:
+                    nth, spec = int(mm.group(1)), mm.group(2)
+                rx = re.compile(spec)
+                hits = [i for i, (a_, z_, _) in enumerate(st, 1) if rx.search(' '.join(src[toks[a_].a:toks[z_].b].split()))]
+                if len(hits) < nth:
+                    raise LostAnchor('%s: no statement #%d matching %r in %s' % (lineno, nth, spec, u.path))
+                n = hits[nth - 1]
             n = int(n)
             if n < 1 or n > len(st):
                 raise LostAnchor('%s: statement %d not found (%d statements) in %s' % (lineno, n, len(st), u.path))
